@@ -68,7 +68,7 @@ static bool checkSequence(int b, int e, const std::vector<int> &w, const std::ve
   long long sumA = 0, sumQ = 0;
   for (int i = 0; i < n; ++i) {
     bool last = i + 1 == n;
-    if (last || (queryMask >> i & 1)) {
+    if (last || (queryMask >> (i & 63) & 1)) {
       long long c1 = a.getCost(w[i], t[i]);
       long long c1b = a.getCost(w[i], t[i]);
       long long c2 = a.push(w[i], t[i]);
@@ -164,7 +164,18 @@ static void exhaustiveCase(uint64_t idx, CaseResult &r, int maxL) {
 static void randomCase(Rng &rng, CaseResult &r, bool big) {
   int b, e;
   std::vector<int> w, t;
-  if (!big && rng.chance(0.25)) {
+  if (!big && rng.chance(0.04)) {
+    // a long chain: 70..200 narrow cells at free, increasing targets (each keeps its own bound), then one or two wide cells whose
+    // target lies far to the left or right, so that a single insertion (and its prediction) cascades through all of them
+    int n = (int)rng.range(70, 200);
+    int L = 4 * n + (int)rng.range(100, 400);
+    b = (int)rng.range(-100, 100);
+    e = b + L;
+    int x = b + (int)rng.range(60, 120);
+    for (int i = 0; i < n; ++i) { int ww = (int)rng.range(1, 2); w.push_back(ww); t.push_back(x); x += ww + (int)rng.range(0, 1); }
+    int wide = (int)rng.range(1, 2);
+    for (int k = 0; k < wide; ++k) { w.push_back((int)rng.range(40, 100)); t.push_back(rng.chance(0.7) ? b - (int)rng.range(0, 50) : e); }
+  } else if (!big && rng.chance(0.25)) {
     // sparse long row, targets in increasing order and spread out: many separate clusters are alive at the same time
     int L = (int)rng.range(200, 3000);
     b = (int)rng.range(-100, 100);
